@@ -4,6 +4,7 @@ import Secp.Props.C01
 import Secp.Props.C02
 import Secp.Props.C07
 import Secp.Props.C05
+import Secp.Props.C06
 import Secp.Props.C16
 import Secp.Props.C17
 import Secp.Props.C18
